@@ -251,7 +251,7 @@ def build(spec):
     z = f(0)
     offs = {k: z for k in OFFSET_KEYS}
     order = list(spec['order'])
-    pads = [bytes.fromhex(p) for p in (spec.get('pads') or [])]
+    pads = [(b'\x00' * int(p[4:]) if p.startswith('big:') else bytes.fromhex(p)) for p in (spec.get('pads') or [])]
 
     def pad(i):
         return pads[i] if i < len(pads) else b''
